@@ -6,6 +6,12 @@ props = [json.loads(l) for l in open(os.path.join(V, "properties.jsonl"))]
 
 # id -> (level, technique, level text, level note, design ref)
 CLAIMED = {
+ "C06": ("exploration", "deterministic simulation: the dependency-graph scenarios of C05 in local mode (recipe compounds, edits, duplicated/batched/unrelated/missing notifications, barriers) with the precision half of the fixpoint oracle, reload ids, ReloadWatcher / reloaded_global and a polling reader racing the reloader",
+         "Seeded search over dependency graphs, edit histories and schedules; oracles: assets outside the model's reverse closure keep value and reload id, each affected asset's id grows by exactly one per pass and by zero on a failed reload, watchers and the global flag report exactly the rewrites since they were armed (and only once), un-notified edits and unrelated notifications change nothing, a reader that polls its watcher during the pass never reads a value older than the reload it was told about. Sampling, not proof.",
+         "The model mirrors the dependency sets each (re)load recorded; rounds in which a reload caches a previously absent asset, or that show the known F-C05b shape, are stopped and counted.", "DESIGN.md §7 C06"),
+ "C14": ("exploration", "deterministic simulation: recipes nesting load / load_owned / get_cached / directory loads / no_record / helper threads / a second cache, then single-entry edits of the entries involved; moved reload ids vs the dependency model's closure; recorder pointer sampled inside loads (hook H7)",
+         "Seeded search over recipes (depth <= 3) and schedules; for each single-entry edit the set of handles whose reload id moved must equal the model's reverse closure for that entry (both directions), and inside every Compound::load the thread-local recorder is sampled: unchanged after each nested load, no_record block and caught panic, null on helper threads. Sampling, not proof.",
+         "Observations made through unrecorded channels are don't-care positions of values; the model implements the recording rules stated by the property.", "DESIGN.md §7 C14"),
  "C02": ("exploration", "deterministic simulation of operation histories with interleaved source edits, executed in lock-step on AssetCache (hot), AssetCache::without_hot_reloading and LocalAssetCache (directly and through AnyCache) against an executable map/load model",
          "Seeded search over histories (1-40 operations over 6 ids x 20 asset types + 6 storable layouts: load, load_owned, get_cached, get_or_insert, contains, remove, take, clear, directory loads, recipe compounds with nested loads, failing and panicking loads) interleaved with source edits, with shard-count / hash-seed knobs; every return value and, periodically, the whole map contents are compared with the model on all three front-ends. Sampling, not proof.",
          "Sequential histories (one simulated thread per front-end plus the idle reloader); races on one key are C01's subject.", "DESIGN.md §7 C02"),
